@@ -1,3 +1,4 @@
+CONSTANT UnitWord = 0
 SPECIFICATION TraceSpec
 POSTCONDITION Accepted
 CHECK_DEADLOCK FALSE
